@@ -182,6 +182,22 @@ example : ¬ IntegerLex (xmlStrip [49, 95, 48, 48, 48]) := by   -- '1_000'
   have : intToPy [49, 95, 48, 48, 48] = .error .value := by decide
   rw [this] at hi; cases hi
 
+/-- decimal lists (SampleArrayValue/@Samples): items are separated by U+0020 only; one item outside the lexical space of
+    xsd:decimal rejects the whole attribute - tokens glued with a no-break space, a tab or any other character are not
+    split into several items … -/
+theorem lexical_reject_decimal_list (s t : Str) (ht : t ∈ listTokens s) (h : ¬ DecimalLex (xmlStrip t)) :
+    decListToPy s = .error .value :=
+  decItems_reject (listTokens s) t ht h
+
+/-- … and an accepted list has one item per token, each the conversion of its token, in order -/
+theorem decimal_list_items (s : Str) (ds : List Dec) (h : decListToPy s = .ok ds) :
+    ds.length = (listTokens s).length ∧
+      ∀ i (hi : i < (listTokens s).length) (hj : i < ds.length), decToPy (listTokens s)[i] = .ok ds[i] :=
+  decItems_ok (listTokens s) ds h
+
+example : decListToPy [49, 46, 53, 160, 50, 46, 53] = .error .value := by decide   -- '1.5<NBSP>2.5'
+example : decListToPy [49, 46, 53, 32, 32, 50, 46, 53, 9] = .ok [⟨false, 15, -1⟩, ⟨false, 25, -1⟩] := by decide
+
 /-- durations: anything outside `PT(\d+H)?(\d+M)?(\d+(\.\d+)?S)?` with at least one component (ASCII digits; one
     trailing newline tolerated, as `$` of the pattern does) is rejected … -/
 theorem lexical_reject_duration (s : Str) (h : ¬ DurationLex (dropNewline s)) : parseDurationUs s = .error .value :=
